@@ -129,6 +129,7 @@ class Integrator(object):
 
         # We parametrize the integrand and integrate it from 0 to a. Integral should go from 0 to a.
         integrand_p = lambda t: integrand(scaled_param(t), a)
-        y, abserr = scipy.integrate.quad(integrand_p, 0, a)
+        # The integrand oscillates about |theta| / pi times: let the number of subintervals grow with it (the default is 50)
+        y, abserr = scipy.integrate.quad(integrand_p, 0, a, limit=50 + int(abs(theta)))
 
         return y
